@@ -2,7 +2,7 @@
    and followed by Print Assumptions. *)
 From Coq Require Import ZArith NArith List Bool Arith.
 From Falcon.lib Require Import PyStr.
-From Falcon.C14 Require Import Spec Oracle Model ModelAsync ProofsDefs ProofsSync ProofsAsync ProofsOracle ProofsRefuted.
+From Falcon.C14 Require Import Spec Oracle Model ModelAsync ProofsDefs ProofsSync ProofsUntil ProofsHistory ProofsAsync ProofsOracle ProofsRefuted.
 Import ListNotations.
 Local Open Scope nat_scope.
 
@@ -14,7 +14,7 @@ Theorem C14_sync_perform_read : forall S rd sabs, good_source S rd sabs ->
   forall st n out st', perform_read S rd st n = (out, st') ->
   out = firstn n (tail S sabs st) /\ tail S sabs st' = skipn n (tail S sabs st) /\
   buf st' = buf st /\ blen st' = blen st /\ bpos st' = bpos st.
-Proof. exact perform_read_spec. Qed.
+Proof. exact perform_read_spec_total. Qed.
 Print Assumptions C14_sync_perform_read.
 
 (* refinement, one operation: read / peek / pipe / exhaust on a reader state standing for
@@ -22,31 +22,52 @@ Print Assumptions C14_sync_perform_read.
 Theorem C14_sync_refine_op_basic : forall S rd sabs cs, good_source S rd sabs -> 0 < cs ->
   forall st o r st', basic_op o = true -> Inv S st -> run_op S rd cs true st o = (r, st') ->
   sp_op cs o (abs S sabs st) = (r, abs S sabs st') /\ Inv S st'.
-Proof. exact refine_op_basic. Qed.
+Proof. exact refine_op_basic_total. Qed.
 Print Assumptions C14_sync_refine_op_basic.
 
-(* FULL STATEMENT (target):  forall cs maxlen data sched h, 0 < cs -> valid_delims cs h ->
-     sync_history cs maxlen data sched h = map o_res (spec_history cs maxlen data h)
-   for every history h (all operations, nested delimit/pop).
-   Proved part: histories of read / peek / pipe / exhaust on the top-level reader. *)
-Theorem C14_sync_refine_history_read_peek_partial : forall cs maxlen data sched ops,
-  0 < cs -> forallb basic_op ops = true ->
-  sync_history cs maxlen data sched (flat ops) = map o_res (spec_history cs maxlen data (flat ops)).
-Proof. exact refine_history_basic. Qed.
-Print Assumptions C14_sync_refine_history_read_peek_partial.
+(* refinement, one operation, ALL operations (read, peek, read_until with/without size cap and
+   consume, pipe, pipe_until, readline, readlines, exhaust), relative to a source contract
+   that also fits delimited sub-readers: [P] is an invariant of the source states, [NT] says
+   that the byte budget never truncates (true for children, false at top level) *)
+Theorem C14_sync_refine_op : forall S rd sabs cs P NT,
+  good_source_on P rd sabs -> 0 < cs ->
+  forall st o r st', valid_op cs o = true -> InvP S sabs P NT st ->
+  run_op S rd cs true st o = (r, st') ->
+  sp_op cs o (abs S sabs st) = (r, abs S sabs st') /\ InvP S sabs P NT st'.
+Proof. exact refine_op. Qed.
+Print Assumptions C14_sync_refine_op.
+
+(* a delimited sub-reader's read function is itself a conforming source over the parent's
+   cursor cut at the first delimiter: nesting composes to any depth *)
+Theorem C14_sync_child_is_good_source : forall S rd sabs cs P NT,
+  good_source_on P rd sabs -> 0 < cs ->
+  forall d, 1 <= length d -> length d <= cs ->
+  good_source_on (InvP S sabs P NT) (child_rd S rd cs true d) (fun st => cut d (abs S sabs st)).
+Proof. exact child_good_source. Qed.
+Print Assumptions C14_sync_child_is_good_source.
+
+(* THE PROPERTY for the sync reader: for every data string, every declared length, every
+   short-read schedule of the source, every chunk size >= 1 and EVERY history of operations
+   (delimiters of length 1..chunk size) including operations on delimited sub-readers nested
+   two deep (delimit / operate / pop), each operation returns exactly what the flat cursor
+   returns -- nothing twice, nothing skipped. *)
+Theorem C14_sync_refine_history : forall cs maxlen data sched h,
+  0 < cs -> valid_hist cs 0 h = true ->
+  sync_history cs maxlen data sched h = map o_res (spec_history cs maxlen data h).
+Proof. exact refine_history. Qed.
+Print Assumptions C14_sync_refine_history.
 
 (* the scripted source of the harness is a conforming source *)
 Theorem C14_scripted_source_conforms : good_source source src_read sdata.
 Proof. exact src_read_good. Qed.
 Print Assumptions C14_scripted_source_conforms.
 
-(* the oracle evaluated on the real readers accepts the model (same partial domain) *)
-Theorem C14_oracle_sound_sync_partial : forall cs maxlen data sched ops,
-  0 < cs -> forallb basic_op ops = true ->
-  oracle true cs maxlen data (flat ops)
-         (map as_obs (sync_history cs maxlen data sched (flat ops))) = None.
-Proof. exact oracle_sound_sync_basic. Qed.
-Print Assumptions C14_oracle_sound_sync_partial.
+(* the oracle evaluated on the real sync reader accepts the model on every valid history *)
+Theorem C14_oracle_sound_sync : forall cs maxlen data sched h,
+  0 < cs -> valid_hist cs 0 h = true ->
+  oracle true cs maxlen data h (map as_obs (sync_history cs maxlen data sched h)) = None.
+Proof. exact oracle_sound_sync. Qed.
+Print Assumptions C14_oracle_sound_sync.
 
 (* an observation the oracle accepts is exactly the cursor's result list *)
 Theorem C14_oracle_exact : forall impl spec i,
